@@ -426,10 +426,10 @@ impl TryFrom<Option<&SubtypeElements>> for PerVisibleRangeConstraints {
                 matches!(subtype, ASN1Type::Integer(_)),
                 subtype.constraints(),
             ),
-            x => {
-                eprintln!("{x:?}");
-                unreachable!()
-            }
+            x => Err(GrammarError::new(
+                &format!("Constraint {x:?} has no value or size range"),
+                GrammarErrorType::UnpackingError,
+            )),
         }
     }
 }
@@ -997,6 +997,13 @@ fn union_single_and_range(
             }
             let mut indices = indicies.iter().collect::<Vec<_>>();
             indices.sort();
+            if indices.is_empty() {
+                // an empty string united with an inverted (empty) range
+                return Err(GrammarError::new(
+                    "Empty permitted alphabet",
+                    GrammarErrorType::UnpackingError,
+                ));
+            }
             let mut last = indices[0];
             let mut contiguous = true;
             for v in indices[1..].iter() {
